@@ -48,7 +48,7 @@ class EpollLoop : public CommonLoop {
     inline int epollFd() const { return epoll_fd_; }
 
     EpollFdSharedData* refFdSharedData(int fd);
-    EpollFdSharedData* findFdSharedData(int fd) const;  //!< nullptr if there is none
+    EpollFdSharedData* findFdSharedData(int fd) const;  //!< 供事件分发使用，没有或是本轮等待返回之后才创建的则返回nullptr
     void unrefFdSharedData(int fd);
 
   protected:
@@ -61,6 +61,9 @@ class EpollLoop : public CommonLoop {
 
     std::unordered_map<int, EpollFdSharedData*> fd_data_map_;
     ObjectPool<EpollFdSharedData> fd_shared_data_pool_{64};
+
+    uint64_t fd_data_serial_ = 0;   //!< 最近创建的共享数据的序号
+    uint64_t wait_serial_ = 0;      //!< 本轮等待返回时的 fd_data_serial_
 };
 
 }
